@@ -441,7 +441,11 @@ def gen_nuget(rng):
     n = rng.choice([1, 2, 3, 3, 3, 4, 4])
     s = ".".join(_num(rng, lead0=0.1) for _ in range(n))
     if rng.random() < 0.4:
-        s += "-" + ".".join(rng.choice(["alpha", "beta", "rc", "1", "2", "10", "Alpha", "a-b", "x", "0", "9", "1a", "rc1", "RC", "-", "a0", "A"]) for _ in range(rng.randint(1, 3)))
+        # the labels include the words Maven treats as aliases of one another (rc/cr, ga/final/release, a1/alpha-1):
+        # NuGet compares labels literally, and its range class derives from Maven's
+        s += "-" + ".".join(rng.choice(["alpha", "beta", "rc", "1", "2", "10", "Alpha", "a-b", "x", "0", "9", "1a", "rc1", "RC", "-", "a0", "A",
+                                        "cr", "final", "ga", "release", "a1", "alpha-1", "b1", "m1", "milestone-1", "sp", "snapshot"])
+                             for _ in range(rng.randint(1, 3)))
     if rng.random() < 0.2:
         s += "+" + rng.choice(["build", "1", "sha.1", "Build", "01", "b-1"])
     return s
@@ -455,8 +459,13 @@ def respell_nuget(s, rng):
     head, dash, pre = core.partition("-")
     if r < 0.6 and head.count(".") < 3:
         return head + ".0" + dash + pre + plus + b
-    if r < 0.8:
+    if r < 0.7:
         return s.upper()
+    if r < 0.8 and pre:
+        # NOT equal in NuGet: words that are aliases of one another only in Maven
+        for a, bb in (("rc", "cr"), ("cr", "rc"), ("final", "ga"), ("ga", "final"), ("a1", "alpha-1"), ("b1", "beta-1")):
+            if a in pre:
+                return head + dash + pre.replace(a, bb, 1) + plus + b
     return head.replace(".", ".0", 1) + dash + pre + plus + b
 
 
